@@ -34,6 +34,12 @@ import (
 type aliasResetInfo struct {
 	varIdx, sizeIdx int // indices in Common().Args (receiver included) of the written variable and of the length before the write
 	notes           []string
+	preds           []predUse
+}
+
+type predUse struct {
+	fn         *ssa.Function
+	wIdx, oIdx int
 }
 
 // preciseAliasReset recognises the helper described above; why says what is missing when it is not recognised.
@@ -140,12 +146,61 @@ func (c *Ctx) preciseAliasReset(fn *ssa.Function, m *memoAnchors) (*aliasResetIn
 				return nil, "the loop over the indexed variables is left before every variable was looked at"
 			}
 		}
+		// every level of the walk runs that loop: the header of the walk is not reached again without passing it
+		levelProblem := ""
+		levelPreds := map[*ssa.Function]bool{}
+		if len(outer.Header.Instrs) > 0 {
+			if t, path := reach(fn, outer.Header.Instrs[len(outer.Header.Instrs)-1], func(in ssa.Instruction) bool {
+				return in.Block() == outer.Header && instrIndex(in) == 0
+			}, func(in ssa.Instruction) bool {
+				return in.Block() == inner.Header && instrIndex(in) == 0
+			}, func(b *ssa.BasicBlock, si int) bool {
+				if !outer.Blocks[b.Succs[si]] {
+					return false
+				}
+				// a level may be passed over on the false side of a predicate that answers true whenever the location
+				// has another spelling on that level
+				iff, isIf := b.Instrs[len(b.Instrs)-1].(*ssa.If)
+				if !isIf {
+					return true
+				}
+				cond, neg := iff.Cond, false
+				for {
+					u, ok := cond.(*ssa.UnOp)
+					if !ok || u.Op != token.NOT {
+						break
+					}
+					cond, neg = u.X, !neg
+				}
+				call, ok := cond.(*ssa.Call)
+				if !ok || call.Call.StaticCallee() == nil || !fnInModule(call.Call.StaticCallee()) || len(call.Call.Args) != 1 || call.Call.Args[0] != ssa.Value(phi) {
+					return true
+				}
+				q := call.Call.StaticCallee()
+				if prob := c.evalPredicate(q, 0, -1, "level"); prob != "" {
+					levelProblem = fnName(q) + ": " + prob
+					return true
+				}
+				levelPreds[q] = true
+				falseSide := 1
+				if neg {
+					falseSide = 0
+				}
+				return si != falseSide
+			}); t != nil {
+				if levelProblem != "" {
+					return nil, levelProblem
+				}
+				return nil, "a level of the written path is passed over without looking at the indexed variables (" + strings.Join(pathString(p, path), " -> ") + "): J[\"k\"] keeps its remembered value after J.k = 2, F.Arr[0].X after F.Arr[F.I].X = 1 when the level skipped is the one on which the two spellings differ"
+			}
+		}
 		isReset := func(in ssa.Instruction) bool {
 			call, ok := in.(ssa.CallInstruction)
 			return ok && call.Common().StaticCallee() == m.resetVar && len(call.Common().Args) >= 2 && call.Common().Args[1] == other
 		}
 		// a variable is skipped only when it is v itself, or the predicate said it cannot name the same location
 		var predProblem string
+		var predUses []predUse
 		predicates := map[*ssa.Function]bool{}
 		licensed := func(b *ssa.BasicBlock, si int) bool {
 			iff, isIf := b.Instrs[len(b.Instrs)-1].(*ssa.If)
@@ -195,6 +250,7 @@ func (c *Ctx) preciseAliasReset(fn *ssa.Function, m *memoAnchors) (*aliasResetIn
 						return false
 					}
 					predicates[g] = true
+					predUses = append(predUses, predUse{g, wIdx, oIdx})
 				}
 				falseSide := 1
 				if neg {
@@ -352,6 +408,7 @@ func (c *Ctx) preciseAliasReset(fn *ssa.Function, m *memoAnchors) (*aliasResetIn
 		if info.varIdx < 0 || info.sizeIdx < 0 {
 			return nil, "parameters not identified"
 		}
+		info.preds = predUses
 		return info, ""
 	}
 	return nil, why
@@ -422,7 +479,18 @@ func lengthOperand(v ssa.Value) ssa.Value {
 //
 // Obligation: P && ( SW && SO && !(CW && CO && !IS)  ||  (SW != SO) && (VN || IM) )  =>  g == true.
 func (c *Ctx) aliasPredicate(g *ssa.Function, wIdx, oIdx int) string {
+	return c.evalPredicate(g, wIdx, oIdx, "sound")
+}
+
+// evalPredicate runs the loop-free boolean function g for every assignment of the facts it can test. mode "sound": g has
+// to answer true wherever two variables can name one location (INV-1); "exact": g has to answer false wherever they
+// cannot (INV-15: a true there forgets what no assignment concerned); "level": g(v) has to answer true whenever the
+// location v names can be spelled in another way on its level (oIdx < 0).
+func (c *Ctx) evalPredicate(g *ssa.Function, wIdx, oIdx int, mode string) string {
 	p := c.P
+	if oIdx < 0 {
+		oIdx = wIdx
+	}
 	if g.Blocks == nil || wIdx >= len(g.Params) || oIdx >= len(g.Params) {
 		return "no body"
 	}
@@ -432,6 +500,7 @@ func (c *Ctx) aliasPredicate(g *ssa.Function, wIdx, oIdx int) string {
 	parentF := p.Field("ast", "Variable", "Variable")
 	selF := p.Field("ast", "Variable", "ArrayMapSelector")
 	vnF := p.Field("ast", "Variable", "ValueNode")
+	nameF := p.Field("ast", "Variable", "Name")
 	who := func(v ssa.Value) string {
 		switch unspill(v) {
 		case ssa.Value(g.Params[wIdx]):
@@ -474,6 +543,10 @@ func (c *Ctx) aliasPredicate(g *ssa.Function, wIdx, oIdx int) string {
 			case vnF:
 				if t := term(base); strings.HasPrefix(t, "parent:") {
 					return "vn"
+				}
+			case nameF:
+				if w := who(base); w != "" {
+					return "name:" + w
 				}
 			}
 		}
@@ -567,6 +640,14 @@ func (c *Ctx) aliasPredicate(g *ssa.Function, wIdx, oIdx int) string {
 				if k := keyOf(x.Call.Args[0]); k != "" {
 					return s["V"+k], true
 				}
+			} else if callee != nil && fnInModule(callee) && len(x.Call.Args) == 2 {
+				// may the selector of one stand for the member name of the other
+				if si, ni, ok := c.isMayBeMemberFn(callee); ok {
+					ts, tn := term(x.Call.Args[si]), term(x.Call.Args[ni])
+					if strings.HasPrefix(ts, "sel:") && strings.HasPrefix(tn, "name:") && ts[4:] != tn[5:] {
+						return s["MB"], true
+					}
+				}
 			}
 		}
 		if unknown == "" {
@@ -574,15 +655,31 @@ func (c *Ctx) aliasPredicate(g *ssa.Function, wIdx, oIdx int) string {
 		}
 		return false, false
 	}
-	atoms := []string{"P", "SW", "SO", "CW", "CO", "VW", "VO", "KS", "IS", "VN", "IM"}
+	atoms := []string{"P", "SW", "SO", "CW", "CO", "VW", "VO", "KS", "IS", "VN", "IM", "MB"}
+	if mode == "level" {
+		atoms = []string{"SW", "VN", "IM"}
+	}
 	for mask := 0; mask < 1<<len(atoms); mask++ {
 		s := sigma{}
 		for i, a := range atoms {
 			s[a] = mask&(1<<i) != 0
 		}
-		must := s["P"] && ((s["SW"] && s["SO"] && !(s["CW"] && s["CO"] && !s["IS"])) || ((s["SW"] != s["SO"]) && (s["VN"] || s["IM"])))
-		if !must {
-			continue
+		want := true
+		switch mode {
+		case "sound":
+			if !(s["P"] && ((s["SW"] && s["SO"] && !(s["CW"] && s["CO"] && !s["IS"])) || ((s["SW"] != s["SO"]) && (s["VN"] || s["IM"]) && s["MB"]))) {
+				continue
+			}
+		case "exact":
+			want = false
+			if !(!s["P"] || (!s["SW"] && !s["SO"]) || (s["SW"] && s["SO"] && s["CW"] && s["CO"] && s["VW"] && s["VO"] && s["KS"] && !s["IS"]) || ((s["SW"] != s["SO"]) && !s["VN"] && !s["IM"]) || ((s["SW"] != s["SO"]) && !s["MB"])) {
+				continue
+			}
+		case "level":
+			s["SO"] = s["SW"] // one variable in both roles
+			if !(s["SW"] || s["VN"] || s["IM"]) {
+				continue
+			}
 		}
 		// run g under s
 		b, pred := g.Blocks[0], map[*ssa.BasicBlock]*ssa.BasicBlock{}
@@ -623,17 +720,91 @@ func (c *Ctx) aliasPredicate(g *ssa.Function, wIdx, oIdx int) string {
 		if !decided {
 			return "evaluation did not reach a return"
 		}
-		if !result {
+		if result != want {
 			var st []string
 			for _, a := range atoms {
 				if s[a] {
 					st = append(st, a)
 				}
 			}
-			return fmt.Sprintf("answers false for two variables that can name the same location (state %s; P same container, SW/SO written/other has a selector, CW/CO selector is a literal, IS literal values equal, VN container node unknown, IM container is map-like)", strings.Join(st, " "))
+			legend := "P same container, SW/SO written/other has a selector, CW/CO selector is a literal, VW/VO literal valid, KS kinds equal, IS literal values equal, VN container node unknown, IM container is map-like, MB the selector may stand for the member name"
+			switch mode {
+			case "exact":
+				return fmt.Sprintf("answers true for two variables that cannot name the same location (state %s; %s)", strings.Join(st, " "), legend)
+			case "level":
+				return fmt.Sprintf("answers false for a variable whose location has other spellings on its level (state %s; SW it has a selector, VN container node unknown, IM container is map-like)", strings.Join(st, " "))
+			}
+			return fmt.Sprintf("answers false for two variables that can name the same location (state %s; %s)", strings.Join(st, " "), legend)
 		}
 	}
 	return ""
+}
+
+// isMayBeMemberFn: k(selector, name) answers false only by comparing the string of the selector's literal (constantKey)
+// with the name, behind the "is a literal" edge; every other return is the constant true. Returns the argument
+// positions of the selector and of the name.
+func (c *Ctx) isMayBeMemberFn(k *ssa.Function) (selIdx, nameIdx int, ok bool) {
+	if k == nil || k.Blocks == nil || len(k.Params) != 2 || k.Signature.Results().Len() != 1 || len(naturalLoops(k)) > 0 {
+		return 0, 0, false
+	}
+	selIdx, nameIdx = -1, -1
+	for i, prm := range k.Params {
+		if bt, isB := prm.Type().Underlying().(*types.Basic); isB && bt.Kind() == types.String {
+			nameIdx = i
+		} else {
+			selIdx = i
+		}
+	}
+	if selIdx < 0 || nameIdx < 0 {
+		return 0, 0, false
+	}
+	nCompare := 0
+	for _, r := range returnsOf(k) {
+		if len(r.Results) != 1 {
+			return 0, 0, false
+		}
+		if b, isK := constBool(r.Results[0]); isK && b {
+			continue
+		}
+		bo, isBo := r.Results[0].(*ssa.BinOp)
+		if !isBo || bo.Op.String() != "==" {
+			return 0, 0, false
+		}
+		var keyCall *ssa.Call
+		for _, pr := range [][2]ssa.Value{{bo.X, bo.Y}, {bo.Y, bo.X}} {
+			if unspill(pr[1]) != ssa.Value(k.Params[nameIdx]) {
+				continue
+			}
+			sc, isCall := pr[0].(*ssa.Call)
+			if !isCall || sc.Call.StaticCallee() == nil || sc.Call.StaticCallee().Name() != "String" || len(sc.Call.Args) != 1 {
+				continue
+			}
+			ex, isEx := sc.Call.Args[0].(*ssa.Extract)
+			if !isEx || ex.Index != 0 {
+				continue
+			}
+			kc, isKC := ex.Tuple.(*ssa.Call)
+			if isKC && kc.Call.StaticCallee() != nil && c.isConstantKeyFn(kc.Call.StaticCallee()) && len(kc.Call.Args) == 1 && unspill(kc.Call.Args[0]) == ssa.Value(k.Params[selIdx]) {
+				keyCall = kc
+			}
+		}
+		if keyCall == nil {
+			return 0, 0, false
+		}
+		// behind the edge on which the selector is a literal
+		if !edgesDominate(k, r, func(b *ssa.BasicBlock, si int) bool {
+			iff, isIf := b.Instrs[len(b.Instrs)-1].(*ssa.If)
+			if !isIf || si != 0 {
+				return false
+			}
+			ex, isEx := iff.Cond.(*ssa.Extract)
+			return isEx && ex.Index == 1 && ex.Tuple == ssa.Value(keyCall)
+		}) {
+			return 0, 0, false
+		}
+		nCompare++
+	}
+	return selIdx, nameIdx, nCompare > 0
 }
 
 // isConstantKeyFn: k(selector) returns (value, true) only with the Value of the Constant of the selector's expression atom.
@@ -706,7 +877,8 @@ func ruleINV15(c *Ctx) {
 	}
 	seen := map[string]bool{}
 	jobs := []job{{asg, ssa.Value(receiver(asg)), 0}}
-	nFuncs, nResets := 0, 0
+	nFuncs, nResets, nPreds := 0, 0, 0
+	exactDone := map[*ssa.Function]bool{}
 	for len(jobs) > 0 {
 		j := jobs[0]
 		jobs = jobs[1:]
@@ -808,6 +980,14 @@ func ruleINV15(c *Ctx) {
 			if !fnInModule(callee) || callee.Blocks == nil || fnPkgShort(callee) != "ast" {
 				continue
 			}
+			if info, _ := c.preciseAliasReset(callee, m); info != nil && !exactDone[callee] {
+				exactDone[callee] = true
+				for _, pu := range info.preds {
+					prob := c.evalPredicate(pu.fn, pu.wIdx, pu.oIdx, "exact")
+					c.Check(prob == "", fmt.Sprintf("%s / answers false for two variables that cannot name one location", fnName(pu.fn)), p.Pos(pu.fn.Pos()), "evaluated for every assignment of its facts: different containers, two member names, two different literals, a name and a selector on a node that is not map-like, a name and a string literal that is another name", prob+": every such answer forgets, at each write, something no assignment concerned (Bill.Cost(Tariff.Rate) after Meter.Rate = …; F.Cost(J[\"x\"]) after J.cnt = …)")
+					nPreds++
+				}
+			}
 			for i, a := range ci.Common().Args {
 				if i < len(callee.Params) {
 					if is, _ := onPath(a, 0); is {
@@ -817,5 +997,5 @@ func ruleINV15(c *Ctx) {
 			}
 		}
 	}
-	c.OK("Variable.Assign / functions the written variable is handed to", p.Pos(asg.Pos()), fmt.Sprintf("%d functions followed, %d container resets examined", nFuncs, nResets))
+	c.OK("Variable.Assign / functions the written variable is handed to", p.Pos(asg.Pos()), fmt.Sprintf("%d functions followed, %d container resets and %d alias predicates examined", nFuncs, nResets, nPreds))
 }
